@@ -113,6 +113,7 @@ func clockBracket(c *core.Ctx, r *core.Report, fn *ssa.Function, body an.Event, 
 		return fld != nil && an.IsNamed(owner, workersPkg, "iterationState")
 	}) {
 		_, isDefer := e.Instr.(*ssa.Defer)
+		isDefer = isDefer && e.Frame.Parent == nil // deferred in the runner's own frame: runs when the runner returns
 		r.Check(isDefer || an.Before(c2Ev, e), key+"#cleanups-excluded", an.Pos(c, e.Instr), "cleanups run after the second clock read", "the iteration's cleanups run before the end time is read: their time is included in the duration")
 	}
 }
